@@ -286,6 +286,19 @@ def check_C06(chk):
     if not q:
         plans.append(("m3_sync", dict(Elems="<- Msg_m3", Avails={30}, Modes={"sync"}, MaxIntr=1, MsgName="m3",
                                       MaxChunk=3)))
+    # unbounded element lengths: Apalache discharges the inductive invariant of the stream core
+    # (N = 4 elements of arbitrary length 1..65535, arbitrary number of octets at the source)
+    ad = os.path.join(SPEC, "apalache")
+    obligations = [("init", ["--cinit=ConstInit", "--init=Init", "--inv=IndInv", "--length=0"]),
+                   ("step", ["--cinit=ConstInit", "--init=IndInit", "--inv=IndInv", "--length=1"]),
+                   ("safety", ["--cinit=ConstInit", "--init=IndInit", "--inv=Safety", "--length=0"])]
+    done = []
+    for label, args in obligations:
+        w = apalache_check("C06", label, ad, "StreamInd.tla", args)
+        done.append({"obligation": label, "args": " ".join(args), "wall_s": round(w, 1)})
+    chk.extra["apalache_inductive_invariant"] = {"module": "spec/apalache/StreamInd.tla", "discharged": done,
+                                                 "statement": "IndInv is inductive and implies NoReadAhead / OkMeansAll / "
+                                                              "TruncNeverOk / FaultIsError for arbitrary element lengths"}
     stream_pipeline(chk, "C06", plans, 5 if q else 6)
 
 
